@@ -152,12 +152,19 @@ class CallMixin:
         if isinstance(callee, PyVal) and callee.kind == "boundmethod" and callee.name in ("debug", "info", "warning", "error") :
             return mk_none()
         args = []
-        for a in node.args:
-            if isinstance(a, ast.Starred):
-                v = self.ev(a.value, st, spec)
-                args.append(PyVal("starred", value=v))
-            else:
-                args.append(self.ev(a, st, spec))
+        saved_hint = self.pending_list_type
+        if isinstance(callee, PyVal) and callee.kind == "boundmethod" and callee.name in ("append", "insert") and \
+                is_sv(getattr(callee, "recv", None)) and callee.recv.ty.kind == "list":
+            self.pending_list_type = callee.recv.ty.arg      # xs.append([]) : the empty literal takes the element type of xs
+        try:
+            for a in node.args:
+                if isinstance(a, ast.Starred):
+                    v = self.ev(a.value, st, spec)
+                    args.append(PyVal("starred", value=v))
+                else:
+                    args.append(self.ev(a, st, spec))
+        finally:
+            self.pending_list_type = saved_hint
         kwargs = {k.arg: self.ev(k.value, st, spec) for k in node.keywords}
         return self.apply(callee, args, kwargs, st, spec, node)
 
@@ -889,6 +896,15 @@ class CallMixin:
 
     def spec_sqrt(self, node, st):
         return self.bi_math_sqrt([self.ev(node.args[0], st, True)], {}, st, True)
+
+    def bi_divmod(self, args, kwargs, st, spec):
+        a, b = args
+        if not (is_sv(a) and is_sv(b) and a.ty.kind in ("int", "bool") and b.ty.kind in ("int", "bool")):
+            raise Unsupported("divmod of non-integers")
+        x, y = self.to_int(a), self.to_int(b)
+        if not spec:
+            self.ctx.oblige(st, "safe:div", y != 0, text="divmod by zero")
+        return mk_tuple([SV(INT, self.py_floordiv(x, y)), SV(INT, self.py_mod(x, y))])
 
     def bi_math_pow(self, args, kwargs, st, spec):
         return self.power(SV(REAL, self.to_real(args[0])), args[1], st, spec)
